@@ -194,6 +194,20 @@ def _w_stats(res, p):
         outs = ex.run(fn)
     _finish(res, ex, outs, records, names, p)
     res.sample({"shots": p["shots"], "terms": terms, "bessel": bessel})
+    # typed twins (ground): the same instance with every coefficient a Python int / a Python float / a mixture - numpy picks
+    # array dtypes from the kinds of numbers it is given, which a symbolic run (object arrays) cannot see
+    if names:
+        order = sorted(names)
+        for kind, pick in (("int", lambda i: [3, -2, 5, 7][i % 4]), ("float", lambda i: [0.75, -1.5, 2.25, 0.5][i % 4]), ("mixed", lambda i: [2, -0.5, 3, 1.25][i % 4])):
+            vals = {nm: pick(i) for i, nm in enumerate(order)}
+            res.d["ground_instances"] += 1
+            for cl in ("one-entry-per-term", "expectation-values", "correlations", "covariances"):
+                res.ob(1)
+                bad, detail = replay({"inputs": dict(p, clause=cl, values=vals, coef_kind=kind)})
+                if bad:
+                    res.candidate(cl, f"{p['label']} with {kind} coefficients {vals}: {cl} fails: {detail}", dict(p, clause=cl, values=vals, coef_kind=kind), sub=f"{cl}:{kind}")
+                    break
+                res.ob(0, 1, "ground-numeric")
 
 
 def _w_counts(res, p):
@@ -427,6 +441,12 @@ def instances(tier, seed):
         (17, [[16], [7, 16], [7]], [([7], "k0"), ([16], "k1")]),
         (9, [[0], [8]], [([8, 0], "single")]),
     ]
+    # registers wider than a machine word (65, 72, 130 qubits): shots that differ only beyond bit 63 / bit 127
+    wides += [
+        (65, [[64], [], [64, 0], [64]], [([64], "k0"), ([0], "k1"), ([0, 64], "k2")]),
+        (72, [[64], [71, 3], [64, 71], [], [3]], [([64], "k0"), ([71, 3], "k1"), ([], "k2")]),
+        (130, [[129], [128], [1, 129], [64]], [([129], "k0"), ([128, 64], "k1")]),
+    ]
     for w, ones_list, terms in (wides if tier == "thorough" else wides[:4] + wides[5:]):
         for bessel in (False, True):
             bare = terms[0][1] == "single"
@@ -441,6 +461,15 @@ def instances(tier, seed):
             items.append(("parities-sym", {"width": w, "terms": t, "label": f"parity tallies, all {2**w} outcomes with symbolic multiplicities, op#{oi}w{w}"}))
     items.append(("parities-sym", {"width": 3, "subset": [1, 4, 6], "terms": [[[2, 0], 1.0], [[1], 2.0]], "label": "parity tallies, outcomes 001,100,110 with symbolic multiplicities"}))
     items.append(("parities-sym", {"width": 10, "subset": [1, 2, 512, 513, 1023], "terms": [[[9], 1.0], [[0, 9], 2.0], [[8], 0.5]], "label": "parity tallies, 5 outcomes of a 10-qubit register with symbolic multiplicities"}))
+    # ground: parity tallies on wide registers (beyond 8, 32, 64 and 128 qubits), shots that agree on all low qubits
+    for w, ones_list, pterms in [
+        (9, [[8], [], [8], [0, 8]], [[[8], 1.0], [[0, 8], 0.5]]),
+        (33, [[32], [], [32, 1], [32]], [[[32], 1.0], [[1], 2.0], [[1, 32], 0.5]]),
+        (65, [[64], [], [64, 0], [64], []], [[[64], 1.0], [[0], 2.0], [[0, 64], 0.5]]),
+        (72, [[64], [71, 3], [64, 71], [], [3], [64]], [[[64], 1.0], [[71, 3], 2.0], [[], 0.25]]),
+        (130, [[129], [128], [1, 129], [64], [129]], [[[129], 1.0], [[128, 64], 2.0]]),
+    ]:
+        items.append(("parities", {"shots": [wshot(w, o) for o in ones_list], "terms": pterms, "label": f"parities on a {w}-qubit register, shots with ones at {ones_list} terms={pterms}"}))
     for w in (2, 3):
         outcomes = list(itertools.product((0, 1), repeat=w))
         for n in (1, 2, 3, 4):
@@ -507,7 +536,8 @@ def replay(data):
 
         shots = [tuple(s) for s in p["shots"]]
         terms = p["terms"]
-        cf = lambda c: float(vals.get(c, 0.5)) if isinstance(c, str) else c  # noqa: E731
+        kindf = {"int": int, "float": float}.get(p.get("coef_kind"), float)
+        cf = lambda c: (kindf(vals.get(c, 0.5)) if not (p.get("coef_kind") == "mixed" and float(vals.get(c, 0.5)).is_integer()) else int(vals.get(c))) if isinstance(c, str) else c  # noqa: E731
         op = build_operator(terms, cf, p.get("bare", False))
         m = Measurements(list(shots))
         try:
